@@ -6,10 +6,11 @@ An `allOf` schema may list in `required` a member it does not declare itself (it
 of a base class as required).  `_parse_object_common_part` appends, for every such entry, a member
 WITHOUT A NAME that only carries the wire name (`original_name`) and an empty type.  After all
 models are parsed, `__override_required_field` visits every class model (not enums, not root types)
-and, for every member that has a wire name and an empty type, looks the wire name up in the base
-classes (breadth first): found — the member is replaced by a copy of the base member, marked
-required; not found — the member is dropped.  A placeholder that survives this pass is rendered with
-the name `None`.
+and, for every member that has a wire name (`original_name is not None`; the empty string is a wire
+name like any other) and an empty type, looks the wire name up in the base classes (breadth first):
+found — the member is replaced by a copy of the base member, marked required; not found — the member
+is dropped.  A placeholder that survived this pass would be rendered with the name `None`
+(`None: None` does not parse): `Props/C01.override_leaves_only_named` says none does.
 -/
 namespace Dcg.Model.Placeholder
 
@@ -31,12 +32,10 @@ def Mdl.fields : Mdl → List Fld
 def Mdl.bases : Mdl → List Mdl
   | .mk _ bs => bs
 
-/-- the test of `__override_required_field`: the member has a (truthy) wire name and an empty type.
-`not model_field.original_name` is true for `None` AND for the empty string. -/
+/-- the test of `__override_required_field`: the member has a wire name (`original_name is not
+None` — ANY string, the empty one included: `required: [""]` is an ordinary entry) and an empty type. -/
 def pending (f : Fld) : Bool :=
-  (match f.orig with
-   | some (_ :: _) => true
-   | _ => false) && !f.typed
+  f.orig.isSome && !f.typed
 
 /-- `_find_field(original_name, base classes)`: breadth-first over the base classes, the first
 member whose wire name is the one looked for (`fuel` bounds the walk; `Proofs` never needs more than
@@ -49,9 +48,13 @@ def findField (n : List Char) : Nat → List Mdl → Option Fld
     | some f => some f
     | none => findField n k (rest ++ m.bases)
 
-/-- one member under `__override_required_field`, given the lookup in the base classes -/
+/-- one member under `__override_required_field`, given the lookup in the base classes: a member
+with a wire name `n` and an empty type is replaced by the required copy of what the lookup returns
+for `n`, or dropped; every other member stays -/
 def overrideOne (find : List Char → Option Fld) (f : Fld) : Option Fld :=
-  if pending f then (find (f.orig.getD [])).map (fun o => { o with required := true }) else some f
+  match f.orig, f.typed with
+  | some n, false => (find n).map (fun o => { o with required := true })
+  | _, _ => some f
 
 /-- the members of a class model after the pass — as a list in declaration order; the real pass
 re-inserts a copy at the member's index in the pre-pass list, so that a copy can end up behind later
